@@ -2,8 +2,14 @@
 // interval) and `parse_line` (assumed), and the prologue of `index_chroms`.  Property (C18, first
 // clause): "Indexing a chromosome-grouped BED or bedGraph file yields exactly the byte offset of the
 // first line of each chromosome run, or reports that the file is not grouped."
-// Proved here: SAFETY (every recorded (offset, chrom) names the line that starts at that offset; offsets
-// are ordered; no panic except the depth limit, which is an explicit assumption) and termination.
+// Proved here for the list that do_index builds (the dedup/sort epilogue is outside the Verus subset):
+//  SAFETY       every recorded (offset, chrom) names the line that starts at that offset (this needs the
+//               `line.clear()` before every parsed `read_line`); offsets strictly increase;
+//  COMPLETENESS for a grouped file every run start is recorded;
+//  NO PANIC     every `.unwrap()` is on a live handle / non-empty line; the depth-limit `panic!` is
+//               unreachable for files under 2^49 bytes (potential argument, lemma_depth_bound);
+//  TERMINATION  of the recursion (`limit`) and of the scan loop.
+// NOT proved: that an ungrouped file is reported (it is not: see NOTES.md), anything about the epilogue.
 use vstd::prelude::*;
 use vstd::std_specs::cmp::PartialEqSpecImpl;
 verus! {
@@ -298,6 +304,86 @@ proof fn lemma_depth_pos(c: Seq<u8>, a: int, b: int)
     ensures depth_needed(c, a, b) >= 1,
 {
     reveal_with_fuel(depth_needed, 2);
+}
+
+// ---------------- the depth limit: 100 levels suffice for files under 2^49 bytes ----------------
+/// the last line start before b (1 <= b <= |c|)
+pub open spec fn pls(c: Seq<u8>, b: int) -> int
+    decreases b
+{
+    if b <= 1 { 0 } else if c[b - 2] == 10u8 { b - 1 } else { pls(c, b - 1) }
+}
+proof fn lemma_pls(c: Seq<u8>, b: int)
+    requires 1 <= b <= c.len(),
+    ensures
+        0 <= pls(c, b) < b,
+        is_line_start(c, pls(c, b)),
+        forall|q: int| pls(c, b) < q < b ==> !is_line_start(c, q),
+    decreases b,
+{
+    if b <= 1 { } else if c[b - 2] == 10u8 { } else { lemma_pls(c, b - 1); }
+}
+pub open spec fn p2(n: nat) -> int
+    decreases n
+{
+    if n == 0 { 1 } else { 2 * p2((n - 1) as nat) }
+}
+/// Potential argument: with L = b - a and M = (start of the last line of [a, b)) - a, the bisection
+/// only recurses when L < 2M, and both halves have L'M' <= LM/2.  So the depth is at most
+/// 1 + (number of bits of L*M).
+proof fn lemma_depth_bound(c: Seq<u8>, a: int, b: int, n: nat)
+    requires
+        0 <= a < b <= c.len(), is_line_start(c, a),
+        (b - a) * (pls(c, b) - a) < p2(n),
+    ensures depth_needed(c, a, b) <= n + 1,
+    decreases n,
+{
+    reveal_with_fuel(depth_needed, 2);
+    let ll = b - a;
+    let s = pls(c, b);
+    let mm = s - a;
+    lemma_pls(c, b);
+    let mid = (a + b) / 2;
+    let t = nls(c, mid);
+    lemma_nls(c, mid);
+    if t < b {
+        lemma_pls(c, t);
+        let s1 = pls(c, t);
+        assert(t <= s);
+        assert(a <= s1 <= mid);
+        assert(2 * (mid - a) <= ll);
+        assert(2 * (b - t) <= ll - 1);
+        assert(ll + 1 <= 2 * mm);
+        assert(ll * mm >= 1) by (nonlinear_arith) requires ll >= 1, mm >= 1;
+        assert(n >= 1);
+        // left half
+        let l1 = t - a; let m1 = s1 - a;
+        assert(2 * (l1 * m1) <= ll * mm) by (nonlinear_arith)
+            requires 0 <= l1 <= mm, 0 <= m1, 2 * m1 <= ll;
+        // right half
+        let l2 = b - t; let m2 = s - t;
+        assert(4 * (l2 * m2) <= 2 * (ll * mm)) by (nonlinear_arith)
+            requires 0 <= m2 <= l2, 0 <= 2 * l2 <= ll - 1, ll + 1 <= 2 * mm, ll >= 1,
+        {
+            assert(l2 * m2 <= l2 * l2);
+            assert((2 * l2) * (2 * l2) <= ll * ll);
+            assert(ll * ll <= ll * (2 * mm));
+        }
+        lemma_depth_bound(c, a, t, (n - 1) as nat);
+        lemma_depth_bound(c, t, b, (n - 1) as nat);
+    }
+}
+proof fn lemma_depth_100(c: Seq<u8>)
+    requires 0 < c.len() < 0x2_0000_0000_0000,
+    ensures depth_needed(c, 0, c.len() as int) <= 100,
+{
+    let len = c.len() as int;
+    lemma_pls(c, len);
+    let m = pls(c, len);
+    assert(p2(98) == 0x2_0000_0000_0000 * 0x2_0000_0000_0000) by (compute);
+    assert(len * m < 0x2_0000_0000_0000 * 0x2_0000_0000_0000) by (nonlinear_arith)
+        requires 0 <= m < len, len < 0x2_0000_0000_0000;
+    lemma_depth_bound(c, 0, len, 98);
 }
 
 /// nothing inserted is a splice
@@ -750,7 +836,7 @@ pub fn index_chroms(file: VLines) -> (r: Result<Option<Vec<Entry>>, IoError>)
         file.pos() == 0,
         2 * file.content().len() <= u64::MAX,
         
-        depth_needed(file.content(), 0, file.content().len() as int) <= 100,
+        file.content().len() < 0x2_0000_0000_0000,
     ensures
         
         file.content().len() == 0 ==> r is Err,
@@ -772,15 +858,17 @@ pub fn index_chroms(file: VLines) -> (r: Result<Option<Vec<Entry>>, IoError>)
 
     let chrom = parse_line(&line)?.unwrap();
 
-    proof {
-        assert(line.text() =~= line_at(c, 0));
-    }
-    assert(entry_ok(c, (0u64, chrom))); 
+    assert(line.text() =~= line_at(c, 0)); 
     let first = chroms.insert_first((0, chrom));
+
+    assert(chroms@.len() == 1 && chroms@[0].0 == 0 && entry_ok(c, chroms@[0])); 
     let file_size = file.seek(SeekFrom::End(0))?;
 
     let ghost l_first = chroms;
-    proof { assert(l_first@[0].0 == 0 && l_first@.len() == 1); }
+    proof {
+        assert(l_first@[0].0 == 0 && l_first@.len() == 1);
+        lemma_depth_100(c); 
+    }
 
 
     do_index(
